@@ -12,7 +12,7 @@ RULE = ('grammar-generated well-formed requests (5 methods, origin-form target, 
         'random); corpus first; non-trivial = has >= 2 headers or a body or a forwarded list')
 ASSUMPTIONS = ['IpAddr::from_str is modelled for IPv4 dotted quads only (IPv6 entries are exercised against the Python '
                'ipaddress oracle only)', 'the scripted reader never returns an I/O error other than EOF']
-NEEDS_TOKIO = False
+NEEDS_TOKIO = True
 
 
 def corpus():
@@ -108,6 +108,11 @@ def run(ctx):
             else:
                 ctx.report({'line': line, 'kind': kind}, b[:300], 'well-formed request parses', cls='req-unfaithful',
                            failing_input=True, what='well-formed request rejected')
+    # the tokio parser is the same text modulo .await: same model, second correspondence
+    idx = [i for i, l in enumerate(lines) if l.startswith('req_parse')]
+    if not thorough:
+        idx = idx[::3]
+    ctx.tokio_twin([lines[i] for i in idx], [m[i] for i in idx], 'req-mismatch-tokio')
     for k in (3, len(lines) // 2, len(lines) - 2):
         if 0 <= k < len(lines):
             ctx.sample({'case': lines[k][:300], 'model': m[k][:200], 'impl': im[k][:200]})
